@@ -630,6 +630,10 @@ func (s msgServer) PasswordConfirm(goCtx context.Context, msg *types.MsgPassword
 	}
 
 	if record.Transactions != nil && record.Transactions.Record[hash] != nil {
+		if record.Transactions.Record[hash].Transaction.Password != msg.Password {
+			return nil, errors.Wrap(types.ErrWrongKey, "wrong password")
+		}
+
 		record.Transactions.Record[hash].Confirmed = true
 	}
 
